@@ -411,24 +411,27 @@ type namedBloom struct {
 
 func (n namedBloom) Name() string { return n.name }
 
-// lenPolicy is a valid policy whose filters have nothing in common with bloom filters: eight bytes, bit (len(key) mod 64)
-// set for every key added.  A reader that applies ANOTHER policy to such a block (or this one to a bloom block) gets
-// "absent" for stored keys — which is what must never happen when a table's policy is not among Filter / AltFilters:
-// such a table is read without a filter.
+// lenPolicy is a valid policy whose filters have nothing in common with bloom filters: nine bytes, bit (len(key) mod 64)
+// of the first eight set for every key added, then the byte 0x01 (which a bloom policy reads as "one probe": it then
+// reports most stored keys absent).  Handed a block it did not write, it answers "absent".  A reader that applies ANOTHER
+// policy to such a block (or this one to a bloom block) hides stored keys — which is what must never happen when a table's
+// policy is not among Filter / AltFilters: such a table is read without a filter.
 type lenPolicy struct{}
 type lenGen struct{ bits uint64 }
 
 func (lenPolicy) Name() string                         { return "verif.policyLen" }
 func (lenPolicy) NewGenerator() filter.FilterGenerator { return &lenGen{} }
 func (lenPolicy) Contains(f, key []byte) bool {
-	if len(f) != 8 {
-		return true
+	if len(f) != 9 || f[8] != 1 {
+		return false
 	}
 	return binary.LittleEndian.Uint64(f)&(1<<(uint(len(key))%64)) != 0
 }
 func (g *lenGen) Add(key []byte) { g.bits |= 1 << (uint(len(key)) % 64) }
 func (g *lenGen) Generate(b filter.Buffer) {
-	binary.LittleEndian.PutUint64(b.Alloc(8), g.bits)
+	p := b.Alloc(9)
+	binary.LittleEndian.PutUint64(p, g.bits)
+	p[8] = 1
 	g.bits = 0
 }
 
